@@ -84,8 +84,48 @@ def c12_1(ctx):
     if "TapLeaf(tap_script, self.tapleaf_version)" in src and "for h in self.hashes" in src:
         out.append(ctx.ok("taproot:ControlBlock.merkle_root", "starts at TapLeaf(script, control-block version).hash() and folds the path hashes in order", fn, mod, key="fold"))
     else:
-        out.append(ctx.bad("taproot:ControlBlock.merkle_root", "does not start from the leaf hash with the control block's leaf version / fold self.hashes in order", fn, mod, key="fold"))
+        out += _merkle_root_cells(ctx, mod, fn)
     return out
+
+
+def _merkle_root_cells(ctx, mod, fn):
+    """ControlBlock.merkle_root over formal hashes (used when the function is not in the textual form read above): the leaf hash is a
+    formal value that records script and version, hash_tapbranch is a formal constructor, and the result for paths of 0..3 hashes in
+    every order relation to the running value is compared with the BIP341 fold"""
+    from sa.cells import Evaluator, Obj, Raised, Undecided
+    import itertools
+    spec = "taproot:ControlBlock.merkle_root"
+
+    def leaf_init(o, tap_script=None, tapleaf_version=None, *a, **k):
+        o.attrs.update({"tap_script": tap_script, "tapleaf_version": tapleaf_version})
+
+    def leaf_hash(o, *a, **k):
+        return b"m<leaf:%s:%s>" % (str(o.attrs.get("tap_script")).encode(), str(o.attrs.get("tapleaf_version")).encode())
+
+    def opaque(name, args, kw):
+        if name == "hash_tapbranch":
+            return b"m[" + args[0] + b"]"
+        return NotImplemented
+    pool = [b"a<1>", b"z<2>", b"n<3>"]  # sorts before / after the formal leaf and branch values in different combinations
+    n = 0
+    for k in range(0, 4):
+        for hs in itertools.permutations(pool, k):
+            me = Obj("taproot", "ControlBlock", {"tapleaf_version": 0xC0, "parity": 0, "internal_pubkey": None, "hashes": list(hs)})
+            n += 1
+            try:
+                r = Evaluator(ctx.repo, opaque=opaque, method_hooks={("TapLeaf", "__init__"): leaf_init, ("TapLeaf", "hash"): leaf_hash}).call(spec, ["SCRIPT"], self_obj=me)
+            except Undecided as u:
+                return [ctx.err(spec, "merkle_root not evaluable: %s" % u, fn, mod)]
+            except Raised as x:
+                return [ctx.bad(spec, "merkle_root raises %s for a path of %d hashes" % (x.name, k), fn, mod, key="fold")]
+            want = b"m<leaf:SCRIPT:192>"
+            for h in hs:
+                want = b"m[" + (want + h if want < h else h + want) + b"]"
+            if r != want:
+                return [ctx.bad(spec, "for the path %s the root is %s, BIP341 folds to %s" % ([h.decode() for h in hs], r.decode() if isinstance(r, bytes) else r, want.decode()),
+                                fn, mod, key="fold")]
+    ctx.count("cells", n)
+    return [ctx.ok(spec, "starts at the leaf hash of (script, control-block version) and folds the path hashes in order, smaller first (%d formal paths)" % n, fn, mod, key="fold")]
 
 
 def c12_2(ctx):
